@@ -16,7 +16,9 @@ type pChange struct {
 	SpawnAge string   `json:"spawn_age"`
 	ReadyAge string   `json:"ready_age"` // "" = unready
 	Tasks    []string `json:"tasks"`     // initial statuses
-	Pending  string   `json:"pending"`   // "", "true", "false"
+	Pending  string   `json:"pending"`   // "", "true", "false": attribute "pend"
+	Pending2 string   `json:"pending2"`  // same for the second registered predicate (attribute "pend2")
+	Pending3 string   `json:"pending3"`  // and the third ("pend3")
 	spawnAge time.Duration
 	readyAge time.Duration
 	id       string
@@ -128,6 +130,14 @@ func runC09(t *testing.T) {
 			if ch.readyAge == 0 && rnd.Intn(3) == 0 {
 				ch.Pending = []string{"true", "false"}[rnd.Intn(2)]
 			}
+			// several registered predicates may apply to one change and disagree:
+			// the change is pending if ANY of them says so
+			if ch.readyAge == 0 && rnd.Intn(3) == 0 {
+				ch.Pending2 = []string{"true", "false"}[rnd.Intn(2)]
+			}
+			if ch.readyAge == 0 && rnd.Intn(4) == 0 {
+				ch.Pending3 = []string{"true", "false"}[rnd.Intn(2)]
+			}
 			ch.SpawnAge = ch.spawnAge.String()
 			if ch.readyAge != 0 {
 				ch.ReadyAge = ch.readyAge.String()
@@ -155,11 +165,14 @@ func runC09(t *testing.T) {
 		now := time.Now()
 		st := state.New(nil)
 		st.Lock()
-		st.RegisterPendingChangeByAttr("pend", func(chg *state.Change) bool {
-			var v bool
-			chg.Get("pend", &v)
-			return v
-		})
+		for _, attr := range []string{"pend", "pend2", "pend3"} {
+			attr := attr
+			st.RegisterPendingChangeByAttr(attr, func(chg *state.Change) bool {
+				var v bool
+				chg.Get(attr, &v)
+				return v
+			})
+		}
 		statusOf := map[string]state.Status{"Do": state.DoStatus, "Doing": state.DoingStatus, "Done": state.DoneStatus,
 			"Error": state.ErrorStatus, "Hold": state.HoldStatus, "Undone": state.UndoneStatus}
 		for k := range pc.Changes {
@@ -179,11 +192,13 @@ func runC09(t *testing.T) {
 			for j, s := range ch.Tasks {
 				tks[j].SetStatus(statusOf[s])
 			}
-			switch ch.Pending {
-			case "true":
-				chg.Set("pend", true)
-			case "false":
-				chg.Set("pend", false)
+			for attr, val := range map[string]string{"pend": ch.Pending, "pend2": ch.Pending2, "pend3": ch.Pending3} {
+				switch val {
+				case "true":
+					chg.Set(attr, true)
+				case "false":
+					chg.Set(attr, false)
+				}
 			}
 			ready := time.Time{}
 			if ch.readyAge != 0 {
@@ -271,7 +286,8 @@ func runC09(t *testing.T) {
 			}
 			// unready
 			wantRemoved := len(ch.Tasks) == 0 && effSpawn > pw
-			wantAbort := !wantRemoved && effSpawn > aw && ch.Pending != "true" && len(ch.Tasks) > 0
+			anyPending := ch.Pending == "true" || ch.Pending2 == "true" || ch.Pending3 == "true"
+			wantAbort := !wantRemoved && effSpawn > aw && !anyPending && len(ch.Tasks) > 0
 			if wantRemoved != (chg == nil) {
 				bad("unready-change-removal-wrong", map[string]interface{}{"change": ch.Idx, "removed": chg == nil, "expected_removed": wantRemoved})
 				continue
